@@ -158,13 +158,11 @@ def step (s : St) (line : String) : St × String :=
             | some (_, true) => '1'
             | _ => '0')
         | .error _ => "panic"
-      -- `startupQueries` is what Vaxis really sent: the sequences after the alternate-screen prelude
-      -- (CSI ?1049h, CSI ?25l, CSI m) up to DA1
+      -- `startupAll` (prelude ++ startupQueries ++ mode set-up) is what Vaxis really sent
       let ops := s.qOps.reverse
-      let body := (ops.drop 3).take VaxisModel.Model.C12Replies.startupQueries.length
-      let same := (body.map reprStr) == (VaxisModel.Model.C12Replies.startupQueries.map reprStr)
-      let mq := if same then "queries=model" else "queries=" ++ " | ".intercalate (VaxisModel.Model.C12Replies.startupQueries.map reprStr)
-      let iq := if same then "queries=model" else "queries=" ++ " | ".intercalate (body.map reprStr)
+      let same := (ops.map reprStr) == (VaxisModel.Model.C12Replies.startupAll.map reprStr)
+      let mq := if same then "queries=model" else "queries=" ++ " | ".intercalate (VaxisModel.Model.C12Replies.startupAll.map reprStr)
+      let iq := if same then "queries=model" else "queries=" ++ " | ".intercalate (ops.map reprStr)
       (s, s!"caps={mcaps} {mq}\tcaps={impl} {iq}\t{v}")
   | ["emuadopt"] =>
       match VaxisModel.Model.EmuIO.parseSnap? impl with
